@@ -3754,4 +3754,156 @@ theorem resolveQuals_own_exact {decls : List QDecl} {own inh r : List Qual}
     have := inheritFold_own inh [] q1 r h (by simpa using hpi) hpw1 hown1 hst1
     simpa using this
 
+
+/-! ### parameters of an overriding method -/
+
+/-- what `_resolve_objects` (type_str = "Parameter") does with one declared parameter -/
+theorem resolveParam_ok {decls : List QDecl} {supP : List Param} {p p' : Param}
+    (h : resolveParam decls supP p = .ok p') :
+    p'.name = p.name ∧ p'.ty = p.ty ∧ p'.isArr = p.isArr ∧ p'.arrSize = p.arrSize ∧ p'.emb = p.emb ∧
+    p'.refcls = p.refcls ∧
+    ((hasParam supP p.name = false ∧ resolveQuals decls p.quals [] false = .ok p'.quals) ∨
+     (hasParam supP p.name = true ∧ hasQual p.quals nOverride = false ∧ p' = p) ∨
+     (hasParam supP p.name = true ∧ hasQual p.quals nOverride = true ∧
+        ∃ oname sp, keyOfVal (overrideVal p.quals) = .ok oname ∧ findParam supP oname = some sp ∧
+          sp.ty = p.ty ∧ sp.isArr = p.isArr ∧ sp.arrSize = p.arrSize ∧ sp.emb = p.emb ∧
+          resolveQuals decls p.quals sp.quals true = .ok p'.quals)) := by
+  unfold resolveParam at h
+  by_cases h1 : hasParam supP p.name = true
+  · simp only [h1] at h
+    by_cases h2 : hasQual p.quals nOverride = true
+    · simp only [h2] at h
+      simp at h
+      split at h
+      · simp at h
+      · cases hk : keyOfVal (overrideVal p.quals) with
+        | error e => simp [hk] at h
+        | ok oname =>
+          simp only [hk] at h
+          cases hf : findParam supP oname with
+          | none => simp [hf] at h
+          | some sp =>
+            simp only [hf] at h
+            split at h
+            · simp at h
+            · rename_i hmm
+              cases hq : resolveQuals decls p.quals sp.quals true with
+              | error e => simp [hq] at h
+              | ok qs =>
+                simp [hq] at h; subst h
+                simp at hmm
+                refine ⟨rfl, rfl, rfl, rfl, rfl, rfl, Or.inr (Or.inr ⟨h1, h2, oname, sp, rfl, hf, ?_⟩)⟩
+                exact ⟨hmm.1.1.1, hmm.1.1.2, hmm.1.2, hmm.2, hq⟩
+    · simp [h2] at h; subst h
+      exact ⟨rfl, rfl, rfl, rfl, rfl, rfl, Or.inr (Or.inl ⟨h1, by simpa using h2, rfl⟩)⟩
+  · simp only [h1] at h
+    simp at h
+    cases hq : resolveQuals decls p.quals [] false with
+    | error e => simp [hq] at h
+    | ok qs =>
+      simp [hq] at h; subst h
+      exact ⟨rfl, rfl, rfl, rfl, rfl, rfl, Or.inl ⟨by simpa using h1, rfl⟩⟩
+
+theorem hasParam_eq_any_names (ps : List Param) (n : Name) :
+    hasParam ps n = (ps.map (·.name)).any (fun o => ieq o n) := by
+  simp [hasParam, List.any_map, Function.comp_def]
+
+theorem resolveParams_names {decls : List QDecl} {newP supP r : List Param}
+    (h : resolveParams decls newP supP = .ok r) :
+    r.map (·.name) = Spec.exposedNames (newP.map (·.name)) (supP.map (·.name)) := by
+  unfold resolveParams at h
+  cases hm : mapE (resolveParam decls supP) newP with
+  | error e => simp [hm] at h
+  | ok ps =>
+    simp [hm] at h; subst h
+    have h1 : ps.map (·.name) = newP.map (·.name) :=
+      mapE_ok_map (·.name) (·.name) (fun a b hab => (resolveParam_ok hab).1) hm
+    simp only [Spec.exposedNames, List.map_append, h1, List.map_map]
+    congr 1
+    rw [List.filter_map]
+    try simp only [List.map_map]
+    have : ∀ (l : List Param), l.map ((·.name) ∘ copyParam) = l.map (·.name) := by
+      intro l; apply List.map_congr_left; intro a _; simp [copyParam]
+    rw [this]
+    congr 2
+    funext s
+    simp [hasParam_eq_any_names]
+
+theorem resolveParams_members {decls : List QDecl} {newP supP r : List Param}
+    (h : resolveParams decls newP supP = .ok r) :
+    ∀ x ∈ r, (∃ p ∈ newP, resolveParam decls supP p = .ok x) ∨
+             (∃ sp ∈ supP, hasParam newP sp.name = false ∧ x = copyParam sp) := by
+  unfold resolveParams at h
+  cases hm : mapE (resolveParam decls supP) newP with
+  | error e => simp [hm] at h
+  | ok ps =>
+    simp [hm] at h; subst h
+    intro x hx
+    rcases List.mem_append.mp hx with hx | hx
+    · obtain ⟨p, hp, hpx⟩ := mapE_ok_mem hm x hx
+      exact Or.inl ⟨p, hp, hpx⟩
+    · obtain ⟨sp, hsp, rfl⟩ := List.mem_map.mp hx
+      obtain ⟨h1, h2⟩ := List.mem_filter.mp hsp
+      exact Or.inr ⟨sp, h1, by simpa using h2, rfl⟩
+
+/-- the parameters of a resolved overriding method are the result of `resolveParams` on its declared
+    parameters and the parameters of the superclass method of the same name -/
+theorem resolveElem_params {decls : List QDecl} {n : Name} {supE : List Elem} {e e' : Elem}
+    (h : resolveElem decls n supE e = .ok e') :
+    (hasElem supE e.name = false ∧ e'.params = e.params) ∨
+    (hasElem supE e.name = true ∧ e.isMeth = false ∧ e'.params = e.params) ∨
+    (hasElem supE e.name = true ∧ e.isMeth = true ∧ ∃ s, findElem supE e.name = some s ∧
+        resolveParams decls e.params s.params = .ok e'.params) := by
+  unfold resolveElem at h
+  by_cases h1 : hasElem supE e.name = true
+  · simp only [h1] at h
+    by_cases h2 : hasQual e.quals nOverride = true
+    · simp only [h2] at h
+      simp at h
+      split at h
+      · simp at h
+      · cases hk : keyOfVal (overrideVal e.quals) with
+        | error err => simp [hk] at h
+        | ok oname =>
+          simp only [hk] at h
+          cases hfs : findElem supE oname with
+          | none => simp [hfs] at h
+          | some s =>
+            simp only [hfs] at h
+            split at h
+            · simp at h
+            · cases hs : setNewElem decls n e (some s) with
+              | error err => simp [hs] at h
+              | ok e1 =>
+                simp only [hs] at h
+                obtain ⟨_, _, _, hpar, _⟩ := setNewElem_ok hs
+                by_cases hm : e.isMeth = true
+                · simp only [hm, if_true] at h
+                  -- the class has an element of that name: findElem succeeds
+                  have hex : ∃ s2, findElem supE e.name = some s2 := by
+                    simp only [hasElem, List.any_eq_true] at h1
+                    obtain ⟨x, hx, hxi⟩ := h1
+                    cases hf : findElem supE e.name with
+                    | some s2 => exact ⟨s2, rfl⟩
+                    | none =>
+                      unfold findElem at hf
+                      have := List.find?_eq_none.mp hf x hx
+                      simp [hxi] at this
+                  obtain ⟨s2, hs2⟩ := hex
+                  simp only [hs2, Option.map_some, Option.getD_some] at h
+                  cases hps : resolveParams decls e1.params s2.params with
+                  | error err => simp [hps] at h
+                  | ok ps =>
+                    simp [hps] at h; subst h
+                    rw [hpar] at hps
+                    exact Or.inr (Or.inr ⟨h1, hm, s2, hs2, hps⟩)
+                · simp only [hm] at h
+                  simp at h; subst h
+                  exact Or.inr (Or.inl ⟨h1, by simpa using hm, hpar⟩)
+    · simp [h2] at h
+  · simp only [h1] at h
+    simp at h
+    obtain ⟨_, _, _, hpar, _⟩ := setNewElem_ok h
+    exact Or.inl ⟨by simpa using h1, hpar⟩
+
 end Proofs.Resolve
